@@ -549,13 +549,12 @@ class PWLCalibration(keras.layers.Layer):
     Returns:
       List of assertion ops in graph mode or immediately asserts in eager mode.
     """
-    # Assert by computing outputs for keypoints and testing them against
-    # constraints.
-    test_inputs = tf.constant(
-        value=self.input_keypoints,
-        dtype=self.dtype,
-        shape=[len(self.input_keypoints), 1])
-    outputs = self.call(test_inputs)
+    # Assert by testing the outputs at the keypoints against constraints. They
+    # are taken from the weights directly rather than through call(), which
+    # needs an 'is_missing' tensor when no 'missing_input_value' is given,
+    # returns a list when 'split_outputs' is set and would be evaluated at the
+    # initial rather than the learned keypoints for 'learned_interior'.
+    outputs = self.keypoints_outputs()
 
     asserts = pwl_calibration_lib.assert_constraints(
         outputs=outputs,
